@@ -1,10 +1,129 @@
 import EpModel.Driver.Util
-/- `opt.*` and `spec.opt.*` operations (stub; filled in by the owner of this family). -/
+import EpModel.Model.TcpOptions
+/- `opt.*` operations: TCP options (see harness/src/opt.rs for the grammar and the line formats). -/
 namespace EpModel.Driver.Opt
-open EpModel EpModel.Driver
+open EpModel EpModel.Driver EpModel.TcpOptions
+
+def natBelow (lim : Nat) (s : String) : Option Nat := do
+  let n ← s.toNat?
+  if n < lim then some n else none
+
+def parsePair (s : String) : Option Pair :=
+  match s.splitOn "-" with
+  | [a, b] => do
+      let a ← natBelow 4294967296 a
+      let b ← natBelow 4294967296 b
+      pure (a, b)
+  | _ => none
+
+def parseSlot (s : String) : Option (Option Pair) :=
+  if s == "_" then some none else (parsePair s).map some
+
+def parseElem (s : String) : Option Elem :=
+  if s == "nop" then some .noop
+  else if s == "sackp" then some .sackPerm
+  else
+    match s.splitOn ":" with
+    | ["mss", v] => (natBelow 65536 v).map .mss
+    | ["ws", v] => (natBelow 256 v).map .ws
+    | ["ts", a, b] => do
+        let a ← natBelow 4294967296 a
+        let b ← natBelow 4294967296 b
+        pure (.ts a b)
+    | ["sack", v] =>
+        match v.splitOn ";" with
+        | [f, s0, s1, s2] => do
+            let f ← parsePair f
+            let s0 ← parseSlot s0
+            let s1 ← parseSlot s1
+            let s2 ← parseSlot s2
+            pure (.sack f s0 s1 s2)
+        | _ => none
+    | _ => none
+
+def parseElems (s : String) : Option (List Elem) :=
+  if s == "-" then some [] else (s.splitOn ",").mapM parseElem
+
+def showSlot : Option Pair → String
+  | none => "_"
+  | some (a, b) => s!"{a}-{b}"
+
+def showElem : Elem → String
+  | .noop => "nop"
+  | .mss v => s!"mss:{v}"
+  | .ws v => s!"ws:{v}"
+  | .sackPerm => "sackp"
+  | .sack (a, b) r0 r1 r2 => s!"sack:{a}-{b};{showSlot r0};{showSlot r1};{showSlot r2}"
+  | .ts a b => s!"ts:{a}:{b}"
+
+def showErr : ReadErr → String
+  | .eos id exp act => s!"err(eos(id={id},exp={exp},act={act}))"
+  | .size id sz => s!"err(size(id={id},size={sz}))"
+  | .unknown id => s!"err(unknown(id={id}))"
+
+def showItem : Item → String
+  | .ok e => showElem e
+  | .error e => showErr e
+
+/-- window of an iterator state relative to the iterated slice of length `total`: every state is
+    a suffix, the exhausted state is `&options[len..len]`. -/
+def stateWin (total : Nat) (s : Bytes) : String := showWin (total - s.length) s.length
+
+/-- the harness' `drive`: items until the first `None` (model: `run`), then two more calls. -/
+def drive (b : Bytes) : String :=
+  let total := b.length
+  let r := run b
+  let items := r.1.map (fun (i, s) => s!"{showItem i}@{stateWin total s}")
+  let st0 := r.2
+  let c1 := next st0
+  let c2 := next c1.2
+  let showAfter (c : Option Item × Bytes) : String :=
+    match c.1 with
+    | none => "none"
+    | some i => s!"!revived({showItem i})@{stateWin total c.2}"
+  s!"items=[{joinWith "," items}],stop={stateWin total st0},after=[{showAfter c1},{showAfter c2}]"
+
+def showEnc : EncRes → String
+  | .ok o => s!"ok({hexOfBytes o},len={o.length},doff={dataOffset o.length})"
+  | .err (.notEnoughSpace n) => s!"err(space={n})"
+  | .panic => "panic"
+
+/-- `show_header`: the header stores the options unchanged; `to_bytes` + the two slice types give
+    the same option area back (TCP header codec itself is the subject of C08, not modelled here). -/
+def showHeader : EncRes → String
+  | .ok o =>
+    let h := hexOfBytes o
+    let d := drive o
+    s!"ok(opts={h},doff={dataOffset o.length},hlen={20 + o.length},wire={h},it=({d}),sl=(opts={h},{d}),ts=(opts={h},{d}))"
+  | .err (.notEnoughSpace n) => s!"err(space={n})"
+  | .panic => "panic"
+
+def oks : List (Item × Bytes) → List Elem
+  | [] => []
+  | (.ok e, _) :: t => e :: oks t
+  | (.error _, _) :: t => oks t
 
 def run (op : String) (args : List String) : Option String :=
   match op, args with
+  | "opt.encode", [e] => do
+      let es ← parseElems e
+      pure (showEnc (encode es))
+  | "opt.raw", [h] => do
+      let b ← argHex h
+      pure (showEnc (fromSlice b))
+  | "opt.iter", [h] => do
+      let b ← argHex h
+      pure (drive b)
+  | "opt.reenc", [h] => do
+      let b ← argHex h
+      let es := oks (TcpOptions.run b).1
+      pure s!"n={es.length},{showEnc (encode es)}"
+  | "opt.hdr_elems", [e] => do
+      let es ← parseElems e
+      pure (showHeader (encode es))
+  | "opt.hdr_raw", [h] => do
+      let b ← argHex h
+      pure (showHeader (fromSlice b))
   | _, _ => none
 
 end EpModel.Driver.Opt
